@@ -183,7 +183,7 @@ func (r *runner) check(part string, s []byte, counted bool) {
 		if cs == "" {
 			continue
 		}
-		if part == "A" || part == "R" {
+		if part == "A" || part == "R" || part == "B0" {
 			w.DivFine(cs, fs, counted, detail, desc(part, t.Name, in))
 			continue
 		}
